@@ -521,12 +521,21 @@ def s18_source_tables(ctx):
         return out
     # G: variant -> literal
     G = {}
-    for pf in all_path_facts(gb):
-        if not pf.returns:
-            continue
+    g_paths = [pf for pf in all_path_facts(gb) if pf.returns]
+    def on_param(pf):
+        return [(sc, vals, allv) for sc, vals, allv in pf.variant_decisions() if _strip(sc)[0] == 'arg']
+    into_str_table_in_data = bool(g_paths) and not any(on_param(pf) for pf in g_paths) and not any(
+        pf.ret is not None and _strip(pf.ret)[0] == 'str' for pf in g_paths)
+    if into_str_table_in_data:
+        # the text is not chosen by branching on the variant in code and no path returns a literal: the names live in a data table searched
+        # at run time; Source -> text and the round trip are not decided, the accessor wiring below still is (by name)
+        r.undecided.append('Into<&str> for Source looks the text up in a data table: Source -> text mapping and the round trip are not decided')
+        r.info['into_str'] = 'not decided: data-table lookup'
+        g_paths = []
+    for pf in g_paths:
         V = None
         names = variants
-        for sc, vals, allv in pf.variant_decisions():
+        for sc, vals, allv in on_param(pf):
             if vals != 'otherwise' and len(vals) == 1:
                 V = names[vals[0]]
             elif vals == 'otherwise':
@@ -541,6 +550,8 @@ def s18_source_tables(ctx):
         G[V] = ret[1]
     for V in variants:
         key = 'Source::%s' % V
+        if into_str_table_in_data:
+            continue
         r.inst(key + '|round-trip')
         if V not in G:
             r.violate(key + '|into_str|missing', 'no textual form for %s' % V, gb.file, gb.line)
@@ -600,7 +611,7 @@ def s18_source_tables(ctx):
     sp = [it['path'] for it in ohlcv['items'] if it['name'] == 'source']
     if not sp:
         raise Broken('OHLCV::source not found')
-    sb = m.body(sp[0], prefer_mono=False)
+    sb = m.body_inlined(sp[0], prefer_mono=False)
     seen = set()
     for pf in all_path_facts(sb):
         if not pf.returns:
@@ -619,6 +630,9 @@ def s18_source_tables(ctx):
         r.inst(key)
         accessor = [t['callee']['name'] for b, tr, t in pf.calls if (t['callee'].get('trait') or '').endswith('OHLCV')]
         want = G.get(V)
+        if want is None and into_str_table_in_data:
+            # no decided text form: the accessor named like the variant (`VolumedPrice` -> `volumed_price`)
+            want = next((it['name'] for it in ohlcv['items'] if it['kind'] == 'Fn' and it['name'].replace('_', '') == V.lower()), None)
         if len(accessor) != 1 or accessor[0] != want:
             r.violate(key + '|calls|%s' % '+'.join(accessor), 'source(Source::%s) calls %s (expected the accessor `%s`)' % (V, accessor, want), sb.file, sb.line)
         else:
@@ -627,7 +641,7 @@ def s18_source_tables(ctx):
                 r.violate(key + '|result', 'source(Source::%s) does not return the accessor\'s value unchanged' % V, sb.file, sb.line)
             seen.add(V)
     for V in variants:
-        if V not in seen and V in G:
+        if V not in seen and (V in G or into_str_table_in_data):
             r.violate('OHLCV::source|%s|missing' % V, 'source() has no arm for %s' % V, sb.file, sb.line)
     r.floor('Source variants', 8, len(variants))
     if not from_str_table_in_data:
